@@ -20,6 +20,9 @@ CHECKS = {
  "C13": ("fault_enumeration", "E3 envfault", "deviation-bounded exhaustive enumeration of sink answer sequences (short writes, Ok(0), Err, Interrupted, flush errors at every call index) over every write path of the real library, compared with the bytes delivered to an in-memory buffer",
          "Every write scenario (datum writer over the schema corpus, container writer per codec, single-object writers, serde writers incl. out-of-order structs and buffered blocks) is executed under every sink answer sequence with at most k deviations plus uniform chunking; either an error is returned or the sink holds exactly the fault-free bytes, and documented byte counts equal what the sink accepted.",
          "5 C13", "sink obeys the std::io::Write contract; deviation bound k per tier in evidence"),
+ "C18": ("model_checking", "E1 + E2 + E3", "bounded-exhaustive enumeration: (schema,value) messages against refpcf+CRC-64-AVRO+refbin, all operation sequences up to a depth on one real writer instance, all single-bit header alterations and truncations against the real readers",
+         "Every message of the corpus equals marker + little-endian CRC-64-AVRO of the independently computed canonical form + independently encoded datum; every sequence of good / failing / short-sink writes up to the depth bound on one writer yields standalone messages readable by the generic and typed readers; every single-bit header alteration and every truncation is rejected without reading past the header.",
+         "5 C18", "refpcf, CRC-64-AVRO, refbin are independent and self-tested; logical-type schemas excluded from the header part (C12's subject)"),
 }
 def main():
     checks = []
